@@ -150,38 +150,61 @@ def explore_parallel(ll_path, entry='sx_main', args=(), opts=None, jobs=None, mi
         ex.deadline = t0 + budget_s
     if min_tasks is None:
         min_tasks = jobs * 6
-    # phase A: find a split depth giving enough independent prefixes
-    depth = 2
-    last = None
-    while True:
+    # phase A: grow a frontier of decision prefixes in the master until there are
+    # enough independent tasks (re-executing a prefix needs no solver calls)
+    def master_run(prefix):
         ex.stats = Stats()
         ex.violations = []
         ex.covers = set()
         ex.samples = []
         ex.worklist = []
         ex.prefixes = []
-        ex.split_depth = depth
+        ex.split_depth = 2
         for f in ex.fns.values():
             f.ncalls = 0
         err = None
         try:
-            ex.explore(entry, list(args))
+            ex.explore(entry, list(args), forced=prefix)
         except Inconclusive as e:
             err = ('inconclusive', str(e))
         except MachineryError as e:
             err = ('machinery', str(e))
         st = ex.stats
         st.fn_calls = {f.name: f.ncalls for f in ex.fns.values() if f.ncalls}
-        last = {'idx': -1, 'stats': st.__dict__, 'violations': [v.to_json() | {'lib_loc': _fmt_loc(v)} for v in ex.violations],
-                'covers': sorted(ex.covers), 'samples': ex.samples, 'err': err, 'wall': 0}
-        prefixes = ex.prefixes
-        if err or not prefixes or len(prefixes) >= min_tasks or depth >= max_split or jobs == 1:
-            break
-        depth += 1
-    res.absorb(last)
-    res.prefixes = len(prefixes)
-    res.split_depth = depth
-    if prefixes and not last['err']:
+        return {'idx': -1, 'stats': st.__dict__,
+                'violations': [v.to_json() | {'lib_loc': _fmt_loc(v)} for v in ex.violations],
+                'covers': sorted(ex.covers), 'samples': ex.samples, 'err': err, 'wall': 0}, ex.prefixes
+
+    tasks = [None]
+    failed = False
+    rounds = 0
+    while tasks and len(tasks) < min_tasks and rounds < max_split and jobs > 1 and not failed:
+        rounds += 1
+        new = []
+        for p in tasks:
+            r, pre = master_run(p)
+            res.absorb(r)
+            if r['err']:
+                failed = True
+                break
+            new += pre
+        tasks = new
+    if jobs == 1 and tasks == [None]:
+        r, pre = master_run(None)
+        res.absorb(r)
+        failed = bool(r['err'])
+        tasks = pre
+    res.prefixes = len(tasks)
+    res.split_depth = rounds
+    prefixes = [t for t in tasks if t is not None]
+    if tasks == [None]:
+        prefixes = []
+        if not failed and rounds == 0:
+            r, pre = master_run(None)
+            res.absorb(r)
+            prefixes = pre
+            failed = bool(r['err'])
+    if prefixes and not failed:
         if jobs == 1:
             for i, p in enumerate(prefixes):
                 res.absorb(_run_prefix((i, p)))
